@@ -158,7 +158,7 @@ func (a *vAbsLog) removedGTEorMax() uint64 {
 	return a.removedGTE
 }
 
-//verif:check C02 stubs=env,valuefile,abslog reach=committed,truncated,end desc="onAppendEntriesRequest under leader completeness: truncation only above commitIndex; commitIndex only forward, <= leader commit, <= last, entry at it has the leader's term" bounds="L=2, E=2, 1-byte payloads; all 64-bit values"
+//verif:check C02,C05 stubs=env,valuefile,abslog reach=committed,truncated,end desc="onAppendEntriesRequest under leader completeness: in-memory (term, votedFor) equals the durable pair afterwards (a term learned from the leader clears the vote in memory and on disk alike); truncation only above commitIndex; commitIndex only forward, <= leader commit, <= last, entry at it has the leader's term" bounds="L=2, E=2, 1-byte payloads; all 64-bit values"
 func VH_C02_append_commit_L2E2() { vAppendCommit(2, 2) }
 
 func vAppendCommit(L, E int) {
@@ -183,6 +183,9 @@ func vAppendCommit(L, E int) {
 		vAssert(fe.term == req.term, "F1-commit-entry-has-leader-term")
 	}
 	vAssert(r.term >= c.term0, "term-monotone")
+	dt, dv := vDurable(".term")
+	vAssert(r.term == dt && r.votedFor == dv, "SI-memory-equals-disk-after-append")
+	vAssert(vImp(r.term > c.term0, r.votedFor == 0), "SI-new-term-from-leader-has-no-vote")
 	vReach("end")
 }
 
